@@ -365,6 +365,20 @@ Theorem C06_split_metadata : forall tk, split_key (metadata_key tk) = Ok (metada
 Proof. exact split_metadata_key. Qed.
 Print Assumptions C06_split_metadata.
 
+(* TKeyClassRange(c) of instance i holds exactly instance i's keys of class c, for the constructors of every
+   generated class made by storage.NewTKey; every generated class is a byte, and only imagetile's legacy key
+   has no NewTKey header *)
+Theorem C06_class_range_generated : forall kc kc' i i' d v c m,
+  id_ok i -> id_ok i' -> byte_ok (kc_class kc) -> byte_ok (kc_class kc') -> has_header kc' ->
+  (in_range (fst (tkey_class_range i (kc_class kc))) (snd (tkey_class_range i (kc_class kc)))
+            (data_key i' (tkey_of kc' d) v c m) <-> (i' = i /\ kc_class kc' = kc_class kc)).
+Proof. exact class_range_generated. Qed.
+Print Assumptions C06_class_range_generated.
+Theorem C06_generated_classes_ok : forall ext kc, In kc (all_keyclasses ext) ->
+  byte_ok (kc_class kc) /\ (has_header kc \/ kc_shape kc = kc_shape kc_imagetile_NewTKey).
+Proof. exact all_keyclasses_byte_ok. Qed.
+Print Assumptions C06_generated_classes_ok.
+
 Example C06_round4_concrete :
   wf_tkey keyclasses_imageblk (tkey_of kc_imageblk_NewTKeyByCoord (repeat 255 12))
   /\ wf_tkey (keyclasses_tarsupervoxels [100; 97; 116]) (tkey_of (kc_tarsupervoxels_NewTKey [100; 97; 116]) [0;0;0;0;0;0;4;210])
